@@ -1,9 +1,10 @@
 (* C02  Block writes are validated as a whole and are all-or-nothing.
    Statements only; proofs in Proof/RegLemmas.v.  Proved: atomicity on failure, the order and addresses of the
    failure classes, soundness of the READONLY / NOENTRY addresses, and that success implies every overlapped
-   register decodes and validates after the overlay and is marked touched.  The exact word image after a
-   successful write spanning several areas is tied by correspondence only (DESIGN.md C02, partial). *)
-From Ufw Require Import Base.Bits Model.RegTable Proof.RegLemmas.
+   register decodes and validates after the overlay and is marked touched; and, for tables whose areas are ordered,
+   disjoint and full (areas_wf), the exact word image after a successful write - across area borders: every address of
+   the request holds the written word, every other address its old word (Proof/RegMemory.v). *)
+From Ufw Require Import Base.Bits Model.RegTable Proof.RegLemmas Proof.RegInitLemmas Proof.RegMemory.
 From Coq Require Import Bool.
 Local Open Scope N_scope.
 
@@ -55,3 +56,24 @@ Theorem C02_success : forall t addr n buf t', block_write t addr n buf = ((ASucc
   map e_touched (t_entries t') = map (fun e => e_touched e || overlaps e addr n) (t_entries t).
 Proof. exact block_write_success_validated. Qed.
 Print Assumptions C02_success.
+
+(* the table as a flat word memory: [word_at t x] is the word of the area that maps x.  A successful block write stores
+   exactly the n given words at addr .. addr+n-1 and leaves every other word (and the geometry) as it was *)
+Theorem C02_word_image : forall t addr n buf t', areas_wf (t_areas t) -> n <> 0 -> n <= N.of_nat (length buf) ->
+  block_write t addr n buf = ((ASuccess, 0), t') ->
+  areas_wf (t_areas t') /\ same_geom (t_areas t) (t_areas t') /\
+  forall x, word_at t' x = if (addr <=? x) && (x <? addr + n) then nth_error buf (N.to_nat (x - addr)) else word_at t x.
+Proof. exact block_write_image. Qed.
+Print Assumptions C02_word_image.
+
+(* the general statement about the word-level writer, for any fuel that suffices and any mapped range *)
+Theorem C02_write_words : forall fuel t addr ws,
+  areas_wf (t_areas t) ->
+  (forall i, i < N.of_nat (length ws) -> exists j a, find_area (t_areas t) (addr + i) 0 = Some (j, a)) ->
+  (ws = [] \/ forall j a, find_area (t_areas t) addr 0 = Some (j, a) -> (length (t_areas t) - j <= fuel)%nat) ->
+  let t' := write_words fuel t addr ws in
+  same_geom (t_areas t) (t_areas t') /\ areas_wf (t_areas t') /\ flags_same t t' /\
+  forall x, word_at t' x =
+            if (addr <=? x) && (x <? addr + N.of_nat (length ws)) then nth_error ws (N.to_nat (x - addr)) else word_at t x.
+Proof. exact write_words_at. Qed.
+Print Assumptions C02_write_words.
